@@ -671,7 +671,8 @@ impl TimeZoneProvider for FsTzdbProvider {
         iso_datetime: IsoDateTime,
     ) -> TemporalResult<Vec<EpochNanoseconds>> {
         let epoch_nanos = iso_datetime.as_nanoseconds()?;
-        let seconds = (epoch_nanos.0 / 1_000_000_000) as i64;
+        // NOTE: floor, not truncate: a wall-clock reading before 1970 belongs to the second that started before it.
+        let seconds = epoch_nanos.0.div_euclid(1_000_000_000) as i64;
         let tzif = self.get(identifier)?;
         let local_time_record_result = tzif.v2_estimate_tz_pair(&Seconds(seconds))?;
         let result = match local_time_record_result {
